@@ -104,5 +104,7 @@ inline void check_delivery(World& w, int sink, std::map<int, std::vector<std::st
     }
 }
 
+inline std::vector<std::string>& g_world_events() { return opx::g_world->events; }
+
 inline size_t context_count() { return detail::ThreadContextManager::instance()._thread_contexts.size(); }
 } // namespace sc
